@@ -861,7 +861,8 @@ def run(ctx: common.Ctx):
     for (u, c, out), err in zip(gen_jobs, gen_res):
         ctx.count("nnvg_runs")
         if err is not None:
-            cause = "py-pickle-recursion" if (c.target == "py" and "RecursionError" in err) else re.sub(r"\d+", "#", err)[:80]
+            m_exc = re.match(r"\s*([A-Za-z_][\w.]*)\s*(?::|$)", err)
+            cause = "py-pickle-recursion" if (c.target == "py" and "RecursionError" in err) else (m_exc.group(1).split(".")[-1] if m_exc else re.sub(r"\d+", "#", err)[:60])
             ctx.fail({"kind": "generation-error", "lang": c.target, "cause": cause},
                      f"generation fails for a namespace the front end accepts ({c.ident}): {err}", replay_blob(u, c, {"error": err}))
             ctx.count("generation_errors")
